@@ -103,6 +103,10 @@ class Accumulator(Module):
         else:
             self.reduce = torch.sum
 
+        # cached reductions were computed with the previous function
+        self._pos_cache.cache_clear()
+        self._neg_cache.cache_clear()
+
     def upperbound(
         self,
         bound: HalfBounding | None,
